@@ -32,6 +32,7 @@ META_ATOMS = [
     '0', '1', 'N', 'M', 'T', 'F', 'R', 'NA', 'INF', 'NaN', '>>', '<<', '[', ']', '{', '}', '(', ')', '@', '*',
     'n:1', 'm:', 's:', 'x:', '-:', 'z:', 'r:a', 'u:', 'b:', 'd:2020-01-01', 'h:12:00', 't:', 'c:1,2', 'x:T:p',
     'ver:"3.0"', '\n\n', '\r\n', '\\n', '\\u0041', '\\"', 'a', 'Z', '-', '\\$', '${x}', '\\\\',
+    'HTTP://Example.COM/Path?Q=1#F', 'http://x.org/y', 'MailTo:Someone@Example.ORG', 'urn:ISBN:0-395-36341-1',
     '\\:', '\\#', '\\/', '\\;', 'C:\\dir\\file', '\\\\srv\\share', 'a\\?b=1&c', '\\[', '\\@',
 ]
 C0_BAD = ''.join(chr(c) for c in range(0x20) if chr(c) not in '\b\f\n\r\t')
